@@ -310,15 +310,27 @@ def chain3_empty(maxseq=4, **kw):
 ALL.update(chain3_empty=chain3_empty)
 
 
-def balance2_eph(maxseq=6, **kw):
-    """balanced splitter with a '?' listener attached to the endpoint of a slow worker"""
+def balance2_eph(maxseq=6, w_ms=None, slow1=True, **kw):
+    """balanced splitter with a '?' listener attached to the endpoint of a slow worker; w_ms=(ms1, ms2): both workers
+    take virtual time per frame (the listener and the splitter take none), W1 the slower one"""
     t = balance2(maxseq=maxseq, **kw)
-    t.filters['W1']['beh']['slow'] = True
+    t.filters['W1']['beh']['slow'] = slow1
+    if w_ms:
+        t.filters['W2']['beh']['slow'] = True
+        t.filters['W1']['work_ms'], t.filters['W2']['work_ms'] = w_ms
     t.filters['E'] = dict(srcs=[src('S', out=1, eph=1)], nout=0, outbal=False, srcbal=False, required=[], beh=beh('sink'))
     t.names.append('E')
     t.fidx['E'] = len(t.names)
-    t.name = 'Balance2Eph'
+    t.name = 'Balance2Eph' + ('Slow2' if w_ms else '') + ('' if slow1 else 'Fast')
     return t
 
 
-ALL.update(balance2_eph=balance2_eph)
+def bal_listen(maxseq=4, **kw):
+    """the smallest balanced splitter with a '?' listener: two sink workers, the listener on the first worker's endpoint"""
+    return Topo('BalListen', {'S': dict(nout=2, outbal=True, beh=beh('origin', tseq=[['main']])),
+                              'W1': dict(srcs=[src('S', out=1)]),
+                              'W2': dict(srcs=[src('S', out=2)]),
+                              'E': dict(srcs=[src('S', out=1, eph=1)])}, maxseq=maxseq, **kw)
+
+
+ALL.update(balance2_eph=balance2_eph, bal_listen=bal_listen)
